@@ -290,3 +290,30 @@ def run(ck):
         [(r_, c_) for r_ in sorted(releases) for c_ in recvs_ if _reaches(rh, r_, c_)]
     ck.ob('C14.timeout', 'C14.timeout/armed-for-every-read', not early, rh.loc(early[0][0]) if early else rh.loc(),
           'no path resets the receive timeout and then blocks in another read of the handshake (a silent client must not park the accept thread)')
+
+    # ---- whole-buffer I/O: the running total advances by what the system call reported, nothing else --------------------------------
+    from sa.flow import value_sources as _vs14
+    for fname, io in (('send_all', 'send'), ('recv_all', 'recv')):
+        f_ = P.fn(SM + fname)
+        ck.touch(f_)
+        ios = [i for i in f_.walk() if (f_.nodes[i].get('callee') or '') in (io, '::' + io)]
+        res = [f_.nodes[v]['d'] for v in f_.walk() if f_.nodes[v]['k'] == 'VarDecl' and f_.nodes[v].get('init') is not None and f_.nodes[v]['init'] >= 0 and
+               any(j in ios for j in f_.walk(f_.nodes[v]['init']))]
+        adv = [i for i in f_.walk() if f_.nodes[i]['k'] == 'CompoundAssignOperator' and f_.nodes[i].get('op') == '+=' and
+               f_.nodes[f_.strip(f_.kids(i)[0])]['k'] == 'DeclRefExpr' and f_.nodes[f_.strip(f_.kids(i)[0])].get('dk') == 'Var' and not f_.nodes[f_.strip(f_.kids(i)[0])].get('g')]
+        ok_adv = len(ios) >= 1 and len(res) >= 1 and len(adv) == 1 and \
+            all(f_.nodes[j].get('d') in res for j in f_.walk(f_.kids(adv[0])[1]) if f_.nodes[j]['k'] == 'DeclRefExpr' and f_.nodes[j].get('dk') in ('Var', 'ParmVar')) and \
+            any(f_.nodes[j]['k'] == 'DeclRefExpr' and f_.nodes[j].get('d') in res for j in f_.walk(f_.kids(adv[0])[1]))
+        ck.ob('C14.io', 'C14.io/%s/advance-by-returned-count' % fname, ok_adv, f_.loc(adv[0]) if adv else f_.loc(),
+              '%s advances its offset by the byte count %s() returned (a partial transfer continues where it stopped; nothing is skipped or repeated)' % (fname, io))
+
+    # ---- installing a key always reaches the live session: register_peer_key has no early exit before the session's key is rewritten ----
+    rk_ = P.fn(SM + 'register_peer_key')
+    ck.touch(rk_)
+    rets_rk = [i for i in rk_.walk() if rk_.nodes[i]['k'] == 'ReturnStmt']
+    from sa.flow import field_accesses as _fa14
+    sess_w = [i for i, m_, w_ in _fa14(rk_) if w_ and m_ == SM + 'Session::key']
+    keys_w = [i for i, m_, w_ in _fa14(rk_) if w_ and m_ == SM + 'keys_']
+    ck.ob('C14.key', 'C14.key/register-always-rewrites-session', not rets_rk and len(sess_w) >= 1 and len(keys_w) >= 1, rk_.loc(rets_rk[0]) if rets_rk else rk_.loc(),
+          'register_peer_key records the key and rewrites the live session\'s key on every call: no "unchanged" shortcut returns first (a session created '
+          'from a snapshot taken before a rotation is repaired by the next registration)')
